@@ -867,6 +867,8 @@ fn eval_expr(value: &str, context: &impl ContextView) -> Result<String> {
                 result.push_str(&eval_str(inner, context)?);
                 value = &value[end_idx + EXPR_END.len()..];
             } else {
+                // no closing braces: keep the text as it was (as eval_vars does for "${")
+                result.push_str(EXPR_START);
                 result.push_str(value);
                 break;
             }
